@@ -79,7 +79,7 @@ typedef struct {
     int_t perm_r[NMAX], perm_c[NMAX];
     int wf; ldc Ld[NMAX][NMAX], Ud[NMAX][NMAX]; char wfmsg[200];
     int xerbla_calls, xerbla_info; char xerbla_name[32];
-    int leak;
+    int leak; long leak_bytes;
 } xres_t;
 typedef struct {          /* objects that live across the calls of one case (FACTORED reuses them) */
     amat_t am; SuperMatrix L, U; int_t perm_r[NMAX + 1], perm_c[NMAX + 1]; real_t R[NMAX], C[NMAX]; equed_t equed; superlumt_options_t opt; int have_lu;
@@ -100,8 +100,10 @@ static void call_gssvx(const xcase_t *c, xstate_t *st, int fact, const ldc *Bin,
        (added after seeded change C07/3 was missed) */
     if (fact != FACTORED) { st->equed = (equed_t)(1 + (int)((c->bits + (unsigned)c->salt + (unsigned)c->scal) % 3)); for (int i = 0; i < n; i++) { st->R[i] = (real_t)7; st->C[i] = (real_t)0.125; } }
     vf_xerbla_calls = 0;
+    long heap0_ = vf_nlive, bytes0_ = vf_live_bytes;
     pXgssvx(c->nprocs, &st->opt, &st->am.A, st->perm_c, st->perm_r, &st->equed, st->R, st->C, &st->L, &st->U, &B, &X, &rpg, &rcond, r->ferr, r->berr, &mu, &info);
     r->info = (int)info; r->equed = st->equed; r->rpg = rpg; r->rcond = rcond;
+    r->leak = (int)(vf_nlive - heap0_); r->leak_bytes = (long)(vf_live_bytes - bytes0_);
     r->xerbla_calls = vf_xerbla_calls; r->xerbla_info = vf_xerbla_info; snprintf(r->xerbla_name, sizeof r->xerbla_name, "%s", vf_xerbla_name);
     for (int i = 0; i < n; i++) { r->R[i] = st->R[i]; r->C[i] = st->C[i]; r->perm_r[i] = st->perm_r[i]; r->perm_c[i] = st->perm_c[i]; }
     /* A as left by the call (dense, from the live arrays) */
@@ -194,6 +196,7 @@ static void run_case(const xcase_t *c)
     am_build(&st.am, &T, c->as_nr);
     st.opt.etree = intMalloc(n); st.opt.colcnt_h = intMalloc(n); st.opt.part_super_h = intMalloc(n);
     get_perm_c(c->ord, &st.am.A, st.perm_c);
+    long live1 = vf_nlive, seq1 = vf_alloc_calls;      /* C17: what is live before the driver is entered (get_perm_c's own known leak stays outside) */
     for (int i = 0; i < n; i++) { st.R[i] = st.C[i] = (real_t)-7; }
     int nrhs = c->nrhs, ldb = n + c->ldb_extra, ldx = n + c->ldx_extra; if (ldb < 1) ldb = 1; if (ldx < 1) ldx = 1;
     /* exact solution and right-hand side: B = op(A) * xtrue, rounded to working precision */
@@ -272,6 +275,13 @@ static void run_case(const xcase_t *c)
                 if (getenv("VF_DUMP")) for (int i = 0; i < n; i++) fprintf(stderr, "i=%d X=%.17Lg xt=%.17Lg b=%.17Lg berr=%g\n", i, creall(res->X[k*NMAX+i]), creall(xt[k*NMAX+i]), creall(B2[k*NMAX+i]), (double)res->berr[k]); break; }
         }
         if (!wellcond) G->illcond++;
+    }
+    else if (!strcmp(PROP, "C17")) {
+        /* the expert driver called again with fact = FACTORED (added after seeded change C17-6 was missed: the temporary column view of a row-stored A was released
+           only when the call also factorizes): such a call creates nothing that outlives it, so the heap balance over the call is zero */
+        G->judged++;
+        if (fact == FACTORED && (res->leak != 0 || res->leak_bytes != 0)) { char sig[96], d[200]; vf_live_since(seq1, d, sizeof d); snprintf(sig, sizeof sig, "C17:leak:gssvx:FACTORED-call:%s", c->as_nr ? "row-stored" : "col-stored");
+            viol(sig, cs, "a call with fact=FACTORED (info=%d) left %d more blocks (%ld bytes) allocated than it found: %s", res->info, res->leak, res->leak_bytes, d); }
     }
     else if (!strcmp(PROP, "C11")) {
         /* driver wiring of the equilibration: computed factors agree with the reference, the apply rule is the documented one */
@@ -367,6 +377,7 @@ static void run_case(const xcase_t *c)
     }
 cleanup:
     if (st.have_lu) { Destroy_SuperNode_SCP(&st.L); Destroy_CompCol_NCP(&st.U); }
+    if (!strcmp(PROP, "C17") && vf_nlive != live1) { char d[200]; vf_live_since(seq1, d, sizeof d); viol(c->as_nr ? "C17:leak:gssvx:after-destroy:row-stored" : "C17:leak:gssvx:after-destroy:col-stored", cs, "%ld blocks still allocated after destroying L and U: %s", vf_nlive - live1, d); }
     SUPERLU_FREE(st.opt.etree); SUPERLU_FREE(st.opt.colcnt_h); SUPERLU_FREE(st.opt.part_super_h);
     am_free(&st.am);
     (void)live0;
